@@ -722,34 +722,106 @@ def parse_line(line, impl=None):
     raise ValueError("cannot parse %r" % line)
 
 
+def register_loaded(sp, im, ir2):
+    """a loaded IR joins the universe: the specification sees it as the
+    constructor calls that build the same structure, the implementation side
+    registers the real objects under the new ids; returns those operations"""
+    g = im.g
+    ops, objs = [], []
+    new_id = {}
+    nxt = [sp.n]
+
+    def add(obj, op, kind, u):
+        new_id[id(obj)] = nxt[0]
+        nxt[0] += 1
+        ops.append(op)
+        objs.append((obj, kind, u))
+    add(ir2, ("mkir", ir2.uuid.int), "ir", ir2.uuid.int)
+    for m in ir2.modules:
+        add(m, ("mk", "module", m.uuid.int, new_id[id(ir2)], []),
+            "module", m.uuid.int)
+        for p in sorted(m.proxies, key=lambda n: n.uuid.int):
+            add(p, ("mk", "proxy", p.uuid.int, new_id[id(m)], []),
+                "proxy", p.uuid.int)
+        for s in sorted(m.sections, key=lambda n: n.uuid.int):
+            add(s, ("mk", "section", s.uuid.int, new_id[id(m)], []),
+                "section", s.uuid.int)
+            for x in sorted(s.byte_intervals, key=lambda n: n.uuid.int):
+                add(x, ("mk", "interval", x.uuid.int, new_id[id(s)], []),
+                    "interval", x.uuid.int)
+                for b in sorted(x.blocks, key=lambda n: n.uuid.int):
+                    kd = "code" if isinstance(b, g.CodeBlock) else "data"
+                    add(b, ("mk", kd, b.uuid.int, new_id[id(x)], []), kd,
+                        b.uuid.int)
+        for y in sorted(m.symbols, key=lambda n: n.uuid.int):
+            if y.referent is not None:
+                pl = ("b", new_id.get(id(y.referent), 10**6))
+            elif y.value is not None:
+                pl = ("i", y.value)
+            else:
+                pl = None
+            add(y, ("mksym", y.uuid.int, im.code_of_name(y.name), pl,
+                    new_id[id(m)]), "symbol", y.uuid.int)
+    for (obj, kind, u), op in zip(objs, ops):
+        sp.apply(op)
+        im.reg(obj, kind, u)
+    return ops
+
+
 def replay_script(script, out=print):
     """re-execute a recorded history on the current tree: implementation vs
     abstract specification after every step; reports the first divergence"""
     sp, im = Spec(), Impl()
     for n, line in enumerate(script):
-        if line.startswith("load") or line.startswith("move") or \
-                line.startswith("addr"):
-            out("step %d: %r cannot be replayed from text; stopping" % (n, line))
-            return None
+        if line.startswith("load "):
+            import io
+            i = int(line.split()[1])
+            try:
+                buf = io.BytesIO()
+                im.nodes[i].save_protobuf_file(buf)
+                buf.seek(0)
+                ir2 = im.g.IR.load_protobuf_file(buf)
+            except Exception as e:   # noqa
+                out("REPRODUCED at step %d %r: save + load raised %s: %s"
+                    % (n, line, type(e).__name__, str(e)[:80]))
+                return (n, line)
+            register_loaded(sp, im, ir2)
+            a, b = im.snapshot(), sp.snapshot()
+            if a != b:
+                out("REPRODUCED at step %d %r: the loaded IR differs from "
+                    "the specification in %s" % (n, line,
+                                                 sorted(diff_parts(a, b))))
+                return (n, line)
+            continue
         try:
             op = parse_line(line, im)
         except ValueError as e:
             out("step %d: %s" % (n, e))
             return None
-        if op[0] == "pop":
-            op_impl = ("pop", op[1], op[2])
-        else:
-            op_impl = op
+        exc = extra = None
         try:
-            want_exc = sp.apply(op)
-        except Outside as o:
-            want_exc = "outside:%s" % o
-        try:
-            exc, extra = im.apply(op_impl)
+            if op[0] == "pop":
+                # which element a set pops is the implementation's choice:
+                # the specification follows what it reports NOW
+                exc, extra = im.apply(("pop", op[1], op[2]))
+                if isinstance(extra, int):
+                    op = ("pop", op[1], op[2], extra)
+            else:
+                exc, extra = im.apply(op)
         except tuple(EXC_NAMES) as e:
             exc = EXC_NAMES[type(e)]
         except Exception as e:   # noqa
             exc = "Other:" + type(e).__name__
+        if op[0] == "pop" and exc == "KeyError":
+            op = ("popempty", op[1], op[2])
+        elif op[0] == "pop" and (len(op) < 4 or not isinstance(op[3], int)):
+            out("REPRODUCED at step %d %r: pop returned something that is "
+                "not a node of the universe" % (n, line))
+            return (n, line)
+        try:
+            want_exc = sp.apply(op)
+        except Outside as o:
+            want_exc = "outside:%s" % o
         a, b = im.snapshot(), sp.snapshot()
         if str(want_exc).startswith("outside"):
             cons = consistent(im)
@@ -1189,44 +1261,8 @@ class History:
                        % (i, type(e).__name__, str(e)[:80]))
             return False
         self.script.append("load %d" % i)
-        ops, objs = [], []
-        new_id = {}
-        nxt = [sp.n]
-
-        def add(obj, op, kind, u):
-            new_id[id(obj)] = nxt[0]
-            nxt[0] += 1
-            ops.append(op)
-            objs.append((obj, kind, u))
-        add(ir2, ("mkir", ir2.uuid.int), "ir", ir2.uuid.int)
-        for m in ir2.modules:
-            add(m, ("mk", "module", m.uuid.int, new_id[id(ir2)], []),
-                "module", m.uuid.int)
-            for p in sorted(m.proxies, key=lambda n: n.uuid.int):
-                add(p, ("mk", "proxy", p.uuid.int, new_id[id(m)], []),
-                    "proxy", p.uuid.int)
-            for s in sorted(m.sections, key=lambda n: n.uuid.int):
-                add(s, ("mk", "section", s.uuid.int, new_id[id(m)], []),
-                    "section", s.uuid.int)
-                for x in sorted(s.byte_intervals, key=lambda n: n.uuid.int):
-                    add(x, ("mk", "interval", x.uuid.int, new_id[id(s)], []),
-                        "interval", x.uuid.int)
-                    for b in sorted(x.blocks, key=lambda n: n.uuid.int):
-                        kd = "code" if isinstance(b, g.CodeBlock) else "data"
-                        add(b, ("mk", kd, b.uuid.int, new_id[id(x)], []), kd,
-                            b.uuid.int)
-            for y in sorted(m.symbols, key=lambda n: n.uuid.int):
-                if y.referent is not None:
-                    pl = ("b", new_id.get(id(y.referent), 10**6))
-                elif y.value is not None:
-                    pl = ("i", y.value)
-                else:
-                    pl = None
-                add(y, ("mksym", y.uuid.int, im.code_of_name(y.name), pl,
-                        new_id[id(m)]), "symbol", y.uuid.int)
-        for (obj, kind, u), op in zip(objs, ops):
-            sp.apply(op)
-            im.reg(obj, kind, u)
+        ops = register_loaded(sp, im, ir2)
+        for op in ops:
             self.lines.append(op_line(op))
             self.impl_out.append(None)
         after = im.snapshot()
@@ -1280,6 +1316,15 @@ def diff_parts(a, b):
     return out
 
 
+# questions also put to the Lean model `ForestOps` (driver `forestops`):
+# (line, the implementation's answer); flushed by graph_stream
+NM_LINES = []
+NM_OPS = {"|": "or", "&": "and", "-": "sub", "^": "xor", "r|": "ror",
+          "r&": "rand", "r-": "rsub", "r^": "rxor", "<=": "le", "<": "lt",
+          ">=": "ge", ">": "gt", "==": "eq", "!=": "ne",
+          "isdisjoint": "disjoint"}
+
+
 def check_nonmutating(hist):
     """C16: non-mutating operations of the owning collections return plain
     values with the mathematically correct contents (vs built-in set / list
@@ -1317,6 +1362,29 @@ def check_nonmutating(hist):
                             g = IndexError
                         if g is not w:
                             problems.append("modules[%d]" % k)
+                    l_ids = ",".join(str(c) for c in sp.kids(p, slot)) or "-"
+                    for k in range(-len(ref) - 1, len(ref) + 1):
+                        try:
+                            a = str(im.ix(coll[k]))
+                        except IndexError:
+                            a = "IndexError"
+                        NM_LINES.append(("get %s %d" % (l_ids, k), a))
+                    for a_, b_, c_ in [(None, None, None), (1, None, None),
+                                       (None, -1, None), (None, None, -1),
+                                       (0, 5, 2)]:
+                        f = lambda v: "-" if v is None else str(v)   # noqa
+                        NM_LINES.append((
+                            "slice %s %s %s %s" % (l_ids, f(a_), f(b_), f(c_)),
+                            "[" + ",".join(str(im.ix(o))
+                                           for o in coll[a_:b_:c_]) + "]"))
+                    for x in cand[:4]:
+                        try:
+                            a = str(coll.index(x))
+                        except ValueError:
+                            a = "ValueError"
+                        NM_LINES.append(("idx %s %d" % (l_ids, im.ix(x)), a))
+                        NM_LINES.append(("cnt %s %d" % (l_ids, im.ix(x)),
+                                         str(coll.count(x))))
                     for x in cand[:4]:
                         if (x in coll) != (x in ref):
                             problems.append("in modules")
@@ -1368,9 +1436,17 @@ def check_nonmutating(hist):
                     ("r-", other - coll, other - ref),
                     ("r^", other ^ coll, other ^ ref),
                 ]
+                xs_ids = ",".join(str(c) for c in sp.kids(p, slot)) or "-"
+                ys_ids = ",".join(str(im.ix(o)) for o in other) or "-"
                 for nm, got, want in checks:
                     if set(got) != want or len(got) != len(want):
                         problems.append("%s on %s of %d" % (nm, slot, p))
+                    else:
+                        # the same question to the Lean model `ForestOps`
+                        NM_LINES.append((
+                            "nm %s %s %s" % (NM_OPS[nm], xs_ids, ys_ids),
+                            "[" + ",".join(str(i) for i in sorted(
+                                im.ix(o) for o in got)) + "]"))
                     if isinstance(got, type(coll)):
                         problems.append("%s returned an owning collection"
                                         % nm)
@@ -1389,6 +1465,10 @@ def check_nonmutating(hist):
                          and len(list(coll)) == len(ref), True)]:
                     if got != want:
                         problems.append("%s on %s of %d" % (nm, slot, p))
+                    elif nm in NM_OPS:
+                        NM_LINES.append((
+                            "nm %s %s %s" % (NM_OPS[nm], xs_ids, ys_ids),
+                            "1" if got else "0"))
                 for x in cand[:4]:
                     if (x in coll) != (x in ref):
                         problems.append("in on %s of %d" % (slot, p))
